@@ -385,6 +385,14 @@ example : 0 < k [(0, 1)] [(0, 1)] 1 := by
   · norm_num at h ⊢
   · positivity
 
+/-- the stability bound instantiated: a two-point diagram against a one-point diagram, `σ = 0.4`, the empty matching -/
+example : heatR [(0, 1), (2, 5)] [(0, 2)] 0.4 ≤
+    (Spec.PM.empty : Spec.PM (Fin [((0 : ℝ), (1 : ℝ)), (2, 5)].length) (Fin [((0 : ℝ), (2 : ℝ))].length)).sumCost
+      (fun i j => euclid ([((0 : ℝ), (1 : ℝ)), (2, 5)].get i) ([((0 : ℝ), (2 : ℝ))].get j))
+      (fun i => toDiag ([((0 : ℝ), (1 : ℝ)), (2, 5)].get i)) (fun j => toDiag ([((0 : ℝ), (2 : ℝ))].get j))
+      / (4 * 0.4 * Real.sqrt Real.pi) :=
+  w1_stability_bound _ _ _ (by norm_num) _
+
 /-- an admissible `sqrt` for `heat_nonneg_finite` exists: `Real.sqrt` -/
 example : ∀ x : ℝ, 0 ≤ x → 0 ≤ Real.sqrt x ∧ Real.sqrt x * Real.sqrt x = x :=
   fun x hx => ⟨Real.sqrt_nonneg x, Real.mul_self_sqrt hx⟩
